@@ -8,6 +8,7 @@ import Pyunicorn.Lemmas.NsiArenasReg
 import Pyunicorn.Lemmas.NsiComp
 import Pyunicorn.Lemmas.NsiCompInv
 import Pyunicorn.Lemmas.NsiCompArenas
+import Pyunicorn.Lemmas.NsiCompConn
 import Pyunicorn.Model.NsiMeasures
 /-!
 # C02 — Node-splitting invariance of all n.s.i. measures
@@ -741,6 +742,68 @@ theorem stopping_rules_admissible (p : Rat) :
   ⟨fun _ _ h a b ha hb => twinness_congr h a b ha hb,
     fun H k hk a b => by simpa using eval_split H k p hk M.nsiTwinness [a, b],
     fun K hw hall i j hi hj => twinness_complete K hw hall i j hi hj⟩
+
+
+/-- the sub-network the wrapper builds for a component of an undirected network is connected
+(walks reverse, concatenate and stay inside the component) -/
+theorem component_subnetwork_connected (G : Gr) (hsym : ∀ i j, G.adj i j = G.adj j i) (a : Nat)
+    (ha : a < G.n) : Connected (subGr G (compNodes G a)) :=
+  subGr_comp_connected G hsym a ha
+
+/-- **`nsi_arenas_betweenness(stopping_mode="neighbors")` through the component loop, on every
+undirected loop-free network with positive weights, connected or not — no regularity
+hypothesis**: the systems of the new component are regular by `arenas_systems_regular`, because
+its sub-network is connected -/
+theorem nsi_arenas_betweenness_wrapper_split_neighbors (G : Gr) (v : Nat) (p : Rat) (hv : v < G.n)
+    (hp0 : 0 < p) (hp1 : p < 1) (hw : ∀ k, k < G.n → 0 < G.w k) (hloop : ∀ i, G.adj i i = false)
+    (hsym : ∀ i j, G.adj i j = G.adj j i) (Vof : Gr → Nat → Nat → Nat → Rat)
+    (hVcongr : ∀ H H', RangeEq H H' → ∀ i s j, i < H.n → s < H.n → j < H.n →
+      Vof H i s j = Vof H' i s j)
+    (excl : Bool) (a : Nat) (ha : a < G.n + 1)
+    (hV : ∀ i, i < (subGr G (compNodes G (collapse G.n v a))).n →
+      ArenasSolves (subGr G (compNodes G (collapse G.n v a))) (fun _ _ => 1) i
+        (Vof (subGr G (compNodes G (collapse G.n v a))) i))
+    (hV' : ∀ i, i < (subGr (split G v p) (compNodes (split G v p) a)).n →
+      ArenasSolves (subGr (split G v p) (compNodes (split G v p) a)) (fun _ _ => 1) i
+        (Vof (subGr (split G v p) (compNodes (split G v p) a)) i)) :
+    arenasAt (split G v p) (fun _ _ _ => 1) Vof excl a
+      = arenasAt G (fun _ _ _ => 1) Vof excl (collapse G.n v a) :=
+  arenasAt_split G v p hv hp0 hp1 hw hloop (fun _ _ _ => 1) Vof (fun _ _ _ _ _ _ _ => rfl)
+    (fun _ _ _ _ _ => rfl) (fun _ _ _ _ _ _ _ => rfl) hVcongr excl a ha hV hV'
+    (fun i hi => arenas_regular _
+      (subGr_weights_pos (split G v p) _ (fun x hx => compNodes_lt _ _ x hx)
+        (split_weights_pos G v p hv hp0 hp1 hw))
+      (subGr_comp_connected (split G v p) (split_adj_symm G v p hsym) a ha) _ i hi rfl
+      (fun _ _ _ => ⟨by norm_num, by norm_num⟩))
+
+/-- **… and `stopping_mode="twinness"`** (the sub-network's own `nsi_twinness`) -/
+theorem nsi_arenas_betweenness_wrapper_split_twinness (G : Gr) (v : Nat) (p : Rat) (hv : v < G.n)
+    (hp0 : 0 < p) (hp1 : p < 1) (hw : ∀ k, k < G.n → 0 < G.w k) (hloop : ∀ i, G.adj i i = false)
+    (hsym : ∀ i j, G.adj i j = G.adj j i) (Vof : Gr → Nat → Nat → Nat → Rat)
+    (hVcongr : ∀ H H', RangeEq H H' → ∀ i s j, i < H.n → s < H.n → j < H.n →
+      Vof H i s j = Vof H' i s j)
+    (excl : Bool) (a : Nat) (ha : a < G.n + 1)
+    (hV : ∀ i, i < (subGr G (compNodes G (collapse G.n v a))).n →
+      ArenasSolves (subGr G (compNodes G (collapse G.n v a)))
+        (fun x y => eval (subGr G (compNodes G (collapse G.n v a))) [x, y] M.nsiTwinness) i
+        (Vof (subGr G (compNodes G (collapse G.n v a))) i))
+    (hV' : ∀ i, i < (subGr (split G v p) (compNodes (split G v p) a)).n →
+      ArenasSolves (subGr (split G v p) (compNodes (split G v p) a))
+        (fun x y => eval (subGr (split G v p) (compNodes (split G v p) a)) [x, y] M.nsiTwinness) i
+        (Vof (subGr (split G v p) (compNodes (split G v p) a)) i)) :
+    arenasAt (split G v p) (fun H x y => eval H [x, y] M.nsiTwinness) Vof excl a
+      = arenasAt G (fun H x y => eval H [x, y] M.nsiTwinness) Vof excl (collapse G.n v a) := by
+  have hw' := subGr_weights_pos (split G v p) (compNodes (split G v p) a)
+    (fun x hx => compNodes_lt _ _ x hx) (split_weights_pos G v p hv hp0 hp1 hw)
+  have hsymA : ∀ i j, aplus (subGr (split G v p) (compNodes (split G v p) a)) i j
+      = aplus (subGr (split G v p) (compNodes (split G v p) a)) j i :=
+    aplus_symm _ (fun i j => split_adj_symm G v p hsym _ _)
+  exact arenasAt_split G v p hv hp0 hp1 hw hloop (fun H x y => eval H [x, y] M.nsiTwinness) Vof
+    (stopping_rules_admissible p).1 (stopping_rules_admissible p).2.1
+    (stopping_rules_admissible p).2.2 hVcongr excl a ha hV hV'
+    (fun i hi => arenas_regular _ hw'
+      (subGr_comp_connected (split G v p) (split_adj_symm G v p hsym) a ha) _ i hi
+      (twinness_diag _ hw' hsymA i hi) (fun r _ _ => twinness_bounds _ hw' i r hi))
 
 /-- non-vacuity: path 0–1–2–3 | link 4–5; the inner nodes of the path have non-zero values, and
 splitting node 1 leaves all values unchanged with the twin carrying node 1's -/
